@@ -113,6 +113,10 @@ impl<F: Read + Seek> BufRead for Stream<F> {
         {
             self.flush_changes()?;
             self.buf_offset_from_start += self.buffer.cursor() as u64;
+            // Empty the buffer before refilling it: if the refill fails, the
+            // window must be empty at the new offset rather than still hold
+            // the previous window's bytes.
+            self.buffer.clear();
             let remaining = self.total_len - self.buf_offset_from_start;
             let stream_id = self.stream_id;
             let offset = self.buf_offset_from_start;
